@@ -11,6 +11,7 @@
   R6 line number           ErrorHandler.build records line_monitor.physical_line_number
 """
 import ast
+import itertools
 
 from sa.index import AnalysisError, unparse, walk_no_nested, call_name, stores_in
 from sa.absint import Interp, Obj, Residual, Raised
@@ -49,6 +50,7 @@ def run(idx, rep, tier):
     r5(idx, rep)
     function_matches_table(idx, rep, "R5")
     r6(idx, rep)
+    collector_table(idx, rep, "R1")
     rep.stats["exhaustive"] = True
 
 
@@ -518,3 +520,26 @@ def r6(idx, rep):
     ps = it.run_all(ft, store={"self.line_count": 7})
     rj = ps[0].result[1] if len(ps) == 1 and ps[0].result[0] == "return" else {}
     rep.check(isinstance(rj, dict) and rj.get("line_count") == 7, "R6", f"{ft.file}::Error.to_json exports line_count", f"{rj if not isinstance(rj, dict) else rj.get('line_count')}", K.where(ft, ft.node))
+
+
+def collector_table(idx, rep, rid):
+    """ErrorHandler.__init__: the collector it was given is the collector it uses — also a Result that holds no lines yet (a Result has a
+    length: the number of its lines), otherwise the CsvPaths, otherwise the CsvPath, otherwise a configuration error"""
+    fi = idx.method("ErrorHandler", "__init__")
+    rep.analysed(fi)
+    bad = None
+    n = 0
+    for coll, cps, cp in itertools.product(("empty result", "result", None), (True, False), (True, False)):
+        it = Interp(idx, types={"self": "ErrorHandler", "RES": "Result", "CPS": "CsvPaths", "CP": "CsvPath"}, unknown_calls="residual",
+                    handlers={"ErrorCommsManager": lambda i, c, r, a, k: Obj("ECM")})
+        lines = [] if coll == "empty result" else [["a"], ["b"]]
+        st = {"RES.lines": list(lines), "RES._lines": list(lines)}
+        args = {"csvpaths": Obj("CPS") if cps else None, "csvpath": Obj("CP") if cp else None, "error_collector": Obj("RES") if coll else None}
+        ps = it.run_all(fi, args=args, store=st)
+        n += 1
+        want = Obj("RES") if coll else Obj("CPS") if cps else Obj("CP") if cp else "raise"
+        got = [("raise" if p.result[0] == "raise" else p.final_store.get("self._error_collector")) for p in ps]
+        if got != [want]:
+            bad = bad or (f"ErrorHandler(csvpaths={'set' if cps else None}, csvpath={'set' if cp else None}, error_collector={coll}) collects into {got}, documented {want!r}: "
+                          "the error of a member would be recorded somewhere else than in the member's result (errors.json stays [])")
+    rep.check(bad is None, rid, f"{fi.file}::ErrorHandler collector table", bad or f"{n} rows", K.where(fi, fi.node))
